@@ -45,3 +45,90 @@ TWINS += [
     {"id": "twin-line-shift", "what": "two comment lines added to every module (all line numbers move)", "transform": _shift_lines},
     {"id": "twin-messages", "what": "error message texts reworded", "transform": _messages},
 ]
+
+
+# --------------------------------------------------------------------------- more twins: refactorings that keep behaviour
+
+
+def _docstrings(root: Path) -> str | None:
+    """A docstring is added to every method that has none (statement numbering inside functions moves)."""
+    import ast as _ast
+    n = 0
+    for p in (root / "explorerscript").rglob("*.py"):
+        if "antlr" in p.parts:
+            continue
+        src = p.read_text(encoding="utf-8")
+        try:
+            tree = _ast.parse(src)
+        except SyntaxError:
+            continue
+        lines = src.split("\n")
+        ins = []
+        for node in _ast.walk(tree):
+            if isinstance(node, _ast.FunctionDef) and node.body and not (isinstance(node.body[0], _ast.Expr) and isinstance(getattr(node.body[0], "value", None), _ast.Constant)):
+                first = node.body[0]
+                if first.lineno == node.lineno:
+                    continue  # one-line def
+                ins.append((first.lineno - 1, " " * first.col_offset + '"""Documented."""'))
+        for ln, text in sorted(ins, reverse=True):
+            lines.insert(ln, text)
+            n += 1
+        p.write_text("\n".join(lines), encoding="utf-8")
+    return None if n else "nothing to document"
+
+
+TWINS += [
+    {"id": "twin-docstrings", "what": "a docstring added to every function without one", "transform": _docstrings},
+    {"id": "twin-strip-last-label-locals", "what": "local variables of strip_last_label renamed, loop index via range",
+     "edits": [("explorerscript/ssb_converting/compiler/utils.py", "                indices_to_remove = set()\n                label = routine[-1]",
+                "                indices_to_remove = set()\n                end_label = routine[-1]"),
+               ("explorerscript/ssb_converting/compiler/utils.py", "if isinstance(op, SsbLabelJump) and op.label == label and op.root.op_code.name == OP_JUMP:",
+                "if isinstance(op, SsbLabelJump) and op.label == end_label and op.root.op_code.name == OP_JUMP:")]},
+    {"id": "twin-process-parameters-comprehension", "what": "_process_parameters written as a list comprehension",
+     "edits": [("explorerscript/macro.py",
+                "        new_params = []\n        for p in original_params:\n            if isinstance(p, SsbOpParamConstant):\n                p_as_str = str(p)\n"
+                "                if p_as_str in macro_params:\n                    new_params.append(macro_params[p_as_str])\n                else:\n"
+                "                    new_params.append(p)\n            else:\n                new_params.append(p)\n        return new_params",
+                "        return [\n            macro_params[str(p)] if isinstance(p, SsbOpParamConstant) and str(p) in macro_params else p for p in original_params\n        ]")]},
+    {"id": "twin-finalizer-else-branch", "what": "LabelFinalizer: `if not removed:` turned into `if removed: pass / else:`",
+     "edits": [("explorerscript/ssb_converting/compiler/label_finalizer.py",
+                "                    if not op_was_removed:\n                        new_r.append(op)\n                        for label in labels_waiting:\n"
+                "                            label.offset = op.offset\n                            self.label_offsets[label.id] = label.offset\n"
+                "                        labels_waiting = []",
+                "                    if op_was_removed:\n                        pass\n                    else:\n                        new_r.append(op)\n"
+                "                        for label in labels_waiting:\n                            label.offset = op.offset\n"
+                "                            self.label_offsets[label.id] = label.offset\n                        labels_waiting = []")]},
+    {"id": "twin-exps-int-isinstance-first", "what": "exps_int restructured (same conversions, same errors)",
+     "edits": [("explorerscript/util.py",
+                "    try:\n        if isinstance(to_convert, str):\n            return int(to_convert, 0)\n        return int(to_convert)\n    except TypeError as e:",
+                "    try:\n        if not isinstance(to_convert, str):\n            return int(to_convert)\n        return int(to_convert, 0)\n    except TypeError as e:")]},
+    {"id": "twin-jump-statement-helper", "what": "write_label_jump: the three identical branches that print the jump folded into one condition",
+     "edits": [("explorerscript/ssb_converting/ssb_decompiler.py",
+                "        elif isinstance(previous_op.get_marker(), ForeverContinue) or isinstance(\n            previous_op.get_marker(), ForeverBreak\n        ):\n"
+                "            # Loop continue/break\n            # Do nothing\n            pass\n        else:",
+                "        elif isinstance(previous_op.get_marker(), (ForeverContinue, ForeverBreak)):\n            # Loop continue/break\n            # Do nothing\n            pass\n        else:")]},
+    {"id": "twin-source-map-eq-order", "what": "SourceMapping.__eq__ compares column before line",
+     "edits": [("explorerscript/source_map.py", "return self.line == other.line and self.column == other.column", "return self.column == other.column and self.line == other.line")]},
+]
+
+
+TWINS += [
+    {"id": "twin-writer-concatenation", "what": "two statement writers build their text by concatenation / a local instead of an f-string",
+     "edits": [("explorerscript/ssb_converting/decompiler/write_handlers/simple_ops/flag.py", 'self.decompiler.write_stmnt(f"clear {op.params[0]};")',
+                'self.decompiler.write_stmnt("clear " + str(op.params[0]) + ";")'),
+               ("explorerscript/ssb_converting/decompiler/write_handlers/simple_ops/flag.py", 'self.decompiler.write_stmnt(f"init {op.params[0]};")',
+                'stmnt = f"init {op.params[0]};"\n            self.decompiler.write_stmnt(stmnt)')]},
+    {"id": "twin-assignment-handler-local", "what": "AssignmentRegularCompileHandler keeps the operator code in a local",
+     "edits": [("explorerscript/ssb_converting/compiler/compile_handlers/assignments/assignment_regular.py",
+                "        # CalcValue / CalcVariable / Set\n        if self.value_is_a_variable:\n            return [\n"
+                "                self._generate_operation(OPS_FLAG__CALC_VARIABLE, [self.var_target, self.operator.value, self.value])",
+                "        # CalcValue / CalcVariable / Set\n        operator_code = self.operator.value\n        if self.value_is_a_variable:\n            return [\n"
+                "                self._generate_operation(OPS_FLAG__CALC_VARIABLE, [self.var_target, operator_code, self.value])")]},
+    {"id": "twin-recursion-check-copy", "what": "the recursion chain is built with a copy and append instead of list concatenation",
+     "edits": [("explorerscript/ssb_converting/ssb_compiler.py", "                recursion_check=self.recursion_check + [file_name],",
+                "                recursion_check=[*self.recursion_check, file_name],")]},
+    {"id": "twin-labels-referenced-set", "what": "the decompiler collects referenced labels in a set-like list without duplicates",
+     "edits": [("explorerscript/ssb_converting/ssb_decompiler.py",
+                "            labels_not_written = [x for x in self.labels_referenced if x not in self.labels_already_printed]",
+                "            labels_not_written = sorted(set(self.labels_referenced) - set(self.labels_already_printed))")]},
+]
